@@ -299,6 +299,7 @@ def correspondence(ctx):
     import numpy as np
     res = Result()
     build_driver()
+    _matrix(ctx)  # start the thread-matrix workers now; the oracle collects them
     spaces, errors = _spaces(ctx)
     res.stats["construct_errors"] = errors
     reqs, handlers = [], []
@@ -386,27 +387,32 @@ def correspondence(ctx):
 # recording stub around the regular assembly function
 
 
-def _recorded_launches(ctx, spaces, model_launches):
+_RECORDED = {}
+
+
+def _record(ctx, spaces, deep=False):
     """Run real dense assemblies with the regular / singular assembly functions (module globals of
-    bempp_cl.core.numba_kernels, looked up by select_numba_kernels at call time) replaced by recording stubs; compare
-    the `test_elements` of the successive kernel calls with the model's launch partition of the dual_to_range space
-    and `trial_elements` with the model's sorted indices of the domain space."""
+    bempp_cl.core.numba_kernels, looked up by select_numba_kernels at call time) replaced by recording stubs.
+    Returns [dict(op, test, trial, calls=[(function name, test_elements, trial_elements)], error)]."""
+    ck = (ctx.seed, ctx.tier, deep)
+    if ck in _RECORDED:
+        return _RECORDED[ck]
+    import random
     import numpy as np
     import bempp_cl.api as api
     from bempp_cl.core import numba_kernels as nk
-    res = Result()
     by_kind = {}
     for it in spaces:
         sp = it["space"]
-        if sp.requires_dof_transformation or it["key"] not in model_launches or it["grid"] == "subcomplex":
+        if sp.requires_dof_transformation or it["grid"] == "subcomplex":
             continue
         if it["grid"].startswith("soup") or sp.number_of_support_elements == 0:
             continue
         by_kind.setdefault((it["grid"], it["kind"]), []).append(it)
-    plans = []  # (operator name, assembly function name(s), test item, trial item)
+    plans = []  # (operator name, test item, trial item)
     grids = sorted({g for g, _ in by_kind})
-    rng = ctx.rng
-    budget = ctx.pick(10, 40)
+    rng = random.Random(ctx.seed * 104729 + 5)
+    budget = 40 if (ctx.thorough or deep) else 12
     for g in grids:
         p1 = by_kind.get((g, "P1"), [])
         dp1 = by_kind.get((g, "DP1"), [])
@@ -436,6 +442,7 @@ def _recorded_launches(ctx, spaces, model_launches):
 
     def singular_stub(*a):
         return None
+    out = []
     try:
         for n in names[:3]:
             setattr(nk, n, make_regular(n))
@@ -444,6 +451,7 @@ def _recorded_launches(ctx, spaces, model_launches):
         for op, test, trial in plans:
             calls.clear()
             ts, ds = test["space"], trial["space"]
+            err = None
             try:
                 if op == "laplace_slp":
                     A = api.operators.boundary.laplace.single_layer(ds, ts, ts, assembler="dense")
@@ -453,26 +461,78 @@ def _recorded_launches(ctx, spaces, model_launches):
                     A = api.operators.boundary.maxwell.electric_field(ds, ds, ts, 1.3, assembler="dense")
                 A.weak_form()
             except Exception as e:  # noqa
-                res.notes.append(f"recording {op} {test['key']} x {trial['key']}: {type(e).__name__} {str(e)[:80]}")
-                continue
-            m_test = model_launches[test["key"]]
-            m_trial = model_launches[trial["key"]]
-            got = [c[1] for c in calls]
-            ncol = len(m_test["launches"])
-            res.case(("recorded", op, test["key"], trial["key"]),
-                     nontrivial=ncol >= 3 or _zero_mult_count(ts.local_multipliers, ts.support) > 0,
-                     sample=dict(recorded=op, test=test["key"], trial=trial["key"], kernel_calls=len(calls),
-                                 launch_sizes=[len(x) for x in got]) if (ncol >= 3 and len(res.samples) < 2) else None)
-            if got != m_test["launches"]:
-                res.disagree("recorded test_elements per kernel call", operator=op, test=test["key"],
-                             impl=[x[:8] for x in got[:4]], model=[x[:8] for x in m_test["launches"][:4]])
-            if any(c[2] != m_trial["sorted"] for c in calls):
-                res.disagree("recorded trial_elements", operator=op, trial=trial["key"])
-            res.count("recorded_assemblies")
-            res.count("recorded_kernel_calls", len(calls))
+                err = f"{type(e).__name__} {str(e)[:80]}"
+            out.append(dict(op=op, test=test, trial=trial, calls=list(calls), error=err))
     finally:
         for n, f in saved.items():
             setattr(nk, n, f)
+    _RECORDED[ck] = out
+    return out
+
+
+def _recorded_launches(ctx, spaces, model_launches):
+    """compare the recorded `test_elements` of the successive kernel calls with the model's launch partition of the
+    dual_to_range space and `trial_elements` with the model's sorted indices of the domain space"""
+    res = Result()
+    for rec in _record(ctx, spaces):
+        op, test, trial, calls = rec["op"], rec["test"], rec["trial"], rec["calls"]
+        if rec["error"]:
+            res.notes.append(f"recording {op} {test['key']} x {trial['key']}: {rec['error']}")
+            continue
+        if test["key"] not in model_launches or trial["key"] not in model_launches:
+            continue
+        ts = test["space"]
+        m_test = model_launches[test["key"]]
+        m_trial = model_launches[trial["key"]]
+        got = [c[1] for c in calls]
+        ncol = len(m_test["launches"])
+        res.case(("recorded", op, test["key"], trial["key"]),
+                 nontrivial=ncol >= 3 or _zero_mult_count(ts.local_multipliers, ts.support) > 0,
+                 sample=dict(recorded=op, test=test["key"], trial=trial["key"], kernel_calls=len(calls),
+                             launch_sizes=[len(x) for x in got]) if (ncol >= 3 and len(res.samples) < 2) else None)
+        if got != m_test["launches"]:
+            res.disagree("recorded test_elements per kernel call", operator=op, test=test["key"],
+                         impl=[x[:8] for x in got[:4]], model=[x[:8] for x in m_test["launches"][:4]])
+        if any(c[2] != m_trial["sorted"] for c in calls):
+            res.disagree("recorded trial_elements", operator=op, trial=trial["key"])
+        res.count("recorded_assemblies")
+        res.count("recorded_kernel_calls", len(calls))
+    return res
+
+
+def _recorded_oracle(ctx, spaces, deep=False):
+    """the property on the real launch loop: within each recorded kernel call no two test elements share a row of
+    the result (any local2global entry), and the calls together visit every support element exactly once"""
+    import numpy as np
+    res = Result()
+    for rec in _record(ctx, spaces, deep):
+        if rec["error"]:
+            continue
+        op, test, calls = rec["op"], rec["test"], rec["calls"]
+        sp = test["space"]
+        l2g = np.asarray(sp.local2global)
+        res.case(("recorded-oracle", op, test["key"]), nontrivial=len(calls) >= 3)
+        visited = sorted(e for c in calls for e in c[1])
+        if visited != np.flatnonzero(sp.support).tolist():
+            res.counterexample(f"launch-loop-not-partition-{op}", f"the kernel calls of the dense {op} assembly with "
+                               f"dual_to_range {test['key']} do not visit every support element exactly once",
+                               operator=op, space=test["key"], launches=[c[1] for c in calls][:8])
+        for k, c in enumerate(calls):
+            owner = {}
+            for e in c[1]:
+                for d in l2g[e]:
+                    o = owner.setdefault(int(d), e)
+                    if o != e:
+                        res.counterexample(
+                            f"launch-shares-row-{op}",
+                            f"kernel call {k} of the dense {op} assembly with dual_to_range {test['key']} receives the "
+                            f"test elements {o} and {e}, which both write row {int(d)} of the result "
+                            f"(rows {l2g[o].tolist()} / {l2g[e].tolist()})", operator=op, space=test["key"], call=k,
+                            elements=[o, e], dof=int(d), test_elements=c[1][:32])
+                        break
+                else:
+                    continue
+                break
     return res
 
 
@@ -547,11 +607,19 @@ def oracle(ctx, deep=False):
                 if l2g.shape[0] <= 64 else None)
     res.stats["artificial_dof_owned_failures"] = owned_fail
     res.stats["oracle_spaces"] = len(spaces)
+    res.merge(_recorded_oracle(ctx, spaces, deep))
     res.merge(_thread_matrix(ctx, deep))
     return res
 
 
+_FOUND = {"n": 0}
+
+
 def search(ctx, broken):
+    """failing-input search after a broken proof / tie: the oracle with the thorough-size generators, unless the
+    oracle of this run has already produced a concrete counterexample"""
+    if _FOUND["n"] and not any(b.get("kind") == "replay" for b in broken):
+        return Result()
     return oracle(ctx, deep=True)
 
 
@@ -617,44 +685,70 @@ def _worker(ncube, seed, rounds):
     print("C16WORKER " + json.dumps(out), flush=True)
 
 
+class _Matrix:
+    """Pool of worker subprocesses (at most `maxpar` at a time); started early so that the JIT time of the workers
+    overlaps with the correspondence run."""
+
+    def __init__(self, ctx, deep):
+        big = ctx.thorough or deep
+        self.threads = [1, 2, 7, 16] if big else [1, 7]
+        self.repeats = 2 if big else 1
+        self.ncube = 4 if big else 3
+        self.rounds = 2
+        self.seed = ctx.seed
+        self.pending = [(t, r) for r in range(self.repeats) for t in self.threads]
+        self.running = []
+        self.results = {}
+        self.maxpar = 4
+        self.t0 = time.time()
+        env = dict(os.environ)
+        env["PYTHONPATH"] = ROOT + os.pathsep + REPO + os.pathsep + env.get("PYTHONPATH", "")
+        env["NUMBA_DISABLE_PERFORMANCE_WARNINGS"] = "1"
+        self.env = env
+        self.fill()
+
+    def fill(self):
+        while self.pending and len(self.running) < self.maxpar:
+            t, r = self.pending.pop(0)
+            env = dict(self.env)
+            env["NUMBA_NUM_THREADS"] = str(t)
+            p = subprocess.Popen([sys.executable, "-W", "ignore", "-m", "props.c16", "--worker", str(self.ncube),
+                                  str(self.seed), str(self.rounds)], cwd=ROOT, env=env, stdout=subprocess.PIPE,
+                                 stderr=subprocess.PIPE, text=True)
+            self.running.append(((t, r), p))
+
+    def collect(self):
+        while self.pending or self.running:
+            self.fill()
+            (t, r), p = self.running.pop(0)
+            try:
+                so, se = p.communicate(timeout=1500)
+            except subprocess.TimeoutExpired:
+                p.kill()
+                raise RuntimeError(f"thread-matrix worker NUMBA_NUM_THREADS={t} timed out")
+            line = next((l for l in so.splitlines() if l.startswith("C16WORKER ")), None)
+            if p.returncode != 0 or line is None:
+                raise RuntimeError(f"thread-matrix worker NUMBA_NUM_THREADS={t} failed rc={p.returncode}: {se[-1500:]}")
+            self.results[(t, r)] = json.loads(line[len("C16WORKER "):])
+        return self.results
+
+
+_MATRIX = {}
+
+
+def _matrix(ctx, deep=False):
+    k = (ctx.seed, ctx.tier, deep)
+    if k not in _MATRIX:
+        _MATRIX[k] = _Matrix(ctx, deep)
+    return _MATRIX[k]
+
+
 def _thread_matrix(ctx, deep=False):
     res = Result()
-    big = ctx.thorough or deep
-    threads = [1, 2, 7, 16] if big else [1, 7]
-    repeats = 2 if big else 1
-    ncube = 4 if big else 3
-    rounds = 2
-    jobs = [(t, r) for r in range(repeats) for t in threads]
-    env_base = dict(os.environ)
-    env_base["PYTHONPATH"] = ROOT + os.pathsep + REPO + os.pathsep + env_base.get("PYTHONPATH", "")
-    env_base["NUMBA_DISABLE_PERFORMANCE_WARNINGS"] = "1"
-    procs = []
-    t0 = time.time()
-    results = {}
-    maxpar = 4
-
-    def launch(t, r):
-        env = dict(env_base)
-        env["NUMBA_NUM_THREADS"] = str(t)
-        return subprocess.Popen([sys.executable, "-W", "ignore", "-m", "props.c16", "--worker", str(ncube), str(ctx.seed),
-                                 str(rounds)], cwd=ROOT, env=env, stdout=subprocess.PIPE, stderr=subprocess.PIPE, text=True)
-    pending = list(jobs)
-    running = []
-    while pending or running:
-        while pending and len(running) < maxpar:
-            t, r = pending.pop(0)
-            running.append(((t, r), launch(t, r)))
-        (t, r), p = running.pop(0)
-        try:
-            so, se = p.communicate(timeout=1500)
-        except subprocess.TimeoutExpired:
-            p.kill()
-            raise RuntimeError(f"thread-matrix worker NUMBA_NUM_THREADS={t} timed out")
-        line = next((l for l in so.splitlines() if l.startswith("C16WORKER ")), None)
-        if p.returncode != 0 or line is None:
-            raise RuntimeError(f"thread-matrix worker NUMBA_NUM_THREADS={t} failed rc={p.returncode}: {se[-1500:]}")
-        results[(t, r)] = json.loads(line[len("C16WORKER "):])
-    res.stats["thread_matrix_seconds"] = round(time.time() - t0, 1)
+    mx = _matrix(ctx, deep)
+    results = mx.collect()
+    threads, repeats, rounds, ncube = mx.threads, mx.repeats, mx.rounds, mx.ncube
+    res.stats["thread_matrix_seconds"] = round(time.time() - mx.t0, 1)
     ref_key = (threads[0], 0)
     ref = results[ref_key]["rounds"][0]
     info = results[ref_key]
@@ -677,7 +771,7 @@ def _thread_matrix(ctx, deep=False):
                                f"{len(seen)} different md5 over NUMBA_NUM_THREADS in {threads}: "
                                + "; ".join(f"{h[:8]}: {v[:3]}" for h, v in seen.items()),
                                operator=op, threads=threads, md5={h: v for h, v in seen.items()},
-                               cube_n=ncube, seed=ctx.seed)
+                               cube_n=ncube, mesh_seed=ctx.seed)
     return res
 
 
